@@ -83,6 +83,23 @@ theorem file_provider_loads_what_is_written (tbl : List (Nat × Nat))
     Hifi.LeapFile.parseFile (Hifi.LeapFile.renderFile tbl) = .ok tbl :=
   Hifi.LeapFile.parseFile_renderFile tbl h
 
+/-- … whatever the layout: any number of blank lines ("A blank line should be ignored", says the header of the
+    IERS file) and comment lines before the data, between data lines and after them leaves the loaded table
+    unchanged (a seeded change that rejected files with a blank line was first missed by the generated files) -/
+theorem file_provider_ignores_blank_and_comment_lines (pre post : List (List Nat))
+    (xs : List (List (List Nat) × (Nat × Nat)))
+    (hpre : ∀ l ∈ pre, Hifi.LeapFile.skipLine l = true) (hpost : ∀ l ∈ post, Hifi.LeapFile.skipLine l = true)
+    (hs : ∀ x ∈ xs, ∀ l ∈ x.1, Hifi.LeapFile.skipLine l = true)
+    (h : ∀ x ∈ xs, x.2.1 ≤ 18446744073709551615 ∧ x.2.2 ≤ 255) :
+    Hifi.LeapFile.parseFile (pre.flatMap (fun l => l ++ [10]) ++
+        (Hifi.LeapFile.renderBodyG xs ++ post.flatMap (fun l => l ++ [10]))) = .ok (xs.map (·.2)) :=
+  Hifi.LeapFile.parseFile_renderG pre post xs hpre hpost hs h
+
+-- "# g\n\n2272060800\t10\t# x\n\n#h\n2287785600\t11\t# x\n\n": header comment, blank lines, a comment between entries
+example : Hifi.LeapFile.parseFile ([[35, 32, 103], []].flatMap (fun l => l ++ [10]) ++
+    (Hifi.LeapFile.renderBodyG [([], (2272060800, 10)), ([[], [35, 104]], (2287785600, 11))] ++ [[]].flatMap (fun l => l ++ [10])))
+    = .ok [(2272060800, 10), (2287785600, 11)] := by decide
+
 /-! ### UTC → TAI -/
 
 /-- UTC → TAI adds exactly the TAI−UTC offset in force at that UTC time (0 before 1972-01-01, …) -/
